@@ -575,6 +575,8 @@ class Gen:
                 e = self.e_of(ty, 0)
         if e[0] == "var" and ty not in (INT, FLOAT, BOOL):
             return None
+        if ty == STR and e[0] == "field" and not self.on("own.str_field", 1.0):
+            return None  # `v = w.name` moves the field out of w (known finding C02-str-ownership)
         name = self.fresh()
         kind = self.pick([("let.inferred", 4, lambda: "inferred"), ("let.let", 1.5, lambda: "let"), ("let.mut", 4, lambda: "mut")])
         annotate = self.on("let.annotated", 0.35) or (ty in (LINT, LSTR, DSI, OINT) and e[0] in ("list", "dict", "none") )
